@@ -15,7 +15,8 @@ CONSTANTS Sessions,      \* session ids
           CheckReplies,  \* what CheckSession may answer when a peer name arrives ({"Ok"} with one peer name)
           Acc,           \* TRUE: responses / deliveries accumulate until observed (trace validation)
           CtlKinds,      \* control messages the adversary uses (bounds the model)
-          PidClasses     \* target pid classes the adversary uses (bounds the model)
+          PidClasses,    \* target pid classes the adversary uses (bounds the model)
+          Reflection     \* TRUE: the adversary may also relay digests between sessions (named deviation DigestReflection)
 
 -----------------------------------------------------------------------------
 (* The two state machines of node/auth.rs as pure functions of (state kind, message class).
@@ -42,7 +43,11 @@ CliNext(st, m) ==
 M(c, k, p) == [c |-> c, k |-> k, p |-> p, n |-> 0]     \* n: sender's serial number (node messages in traces)
 Statuses == {"Ok", "OkSimultaneous", "NotOk", "NotAllowed", "Alive"}
 Digests == IF KnowsCookie THEN {"good", "bad"} ELSE {"bad"}
-AuthMsgs == {M("auth", "Name", ""), M("auth", "SCh", ""), M("auth", "Empty", "")}
+\* Reflection: a node that dialled out answers ANY ServerChallenge with sha256(challenge || cookie); the
+\* adversary hands it the challenge a server-side session of the same node is waiting on ("reflect") and
+\* relays the answer there ("reflected").
+ReflMsgs == IF Reflection THEN {M("auth", "SCh", "reflect"), M("auth", "CCh", "reflected")} ELSE {}
+AuthMsgs == {M("auth", "Name", ""), M("auth", "SCh", ""), M("auth", "Empty", "")} \cup ReflMsgs
             \cup {M("auth", "SS", s) : s \in Statuses}
             \cup {M("auth", "CS", b) : b \in {"true", "false"}}
             \cup {M("auth", k, d) : k \in {"CCh", "SAck"}, d \in Digests}
@@ -63,6 +68,7 @@ NoSession == [role |-> "none", alive |-> FALSE, fsm |-> "none", ready |-> "Open"
               out |-> <<>>,      \* frames sent to the peer (since the last observation when Acc)
               dlv |-> <<>>,      \* messages put into local mailboxes: <<kind, pid class, serial>>
               \* monitors
+              lent |-> {},       \* client side: server-side sessions whose pending challenge this session signed
               eff |-> {}, acc |-> <<>>, everOk |-> FALSE, wasClose |-> FALSE, ownFault |-> FALSE, sawBad |-> FALSE]
 
 Init == ss = [s \in Sessions |-> NoSession] /\ up = TRUE
@@ -143,17 +149,26 @@ Expects(st) ==
     [] st = "WaitingOnClientStatus" -> {M("auth", "CS", "true")}
     [] st = "WaitingOnClientChallengeReply" -> {M("auth", "CCh", "good")}
     [] st = "WaitingForServerStatus" -> {M("auth", "SS", x) : x \in {"Ok", "OkSimultaneous", "Alive"}}
-    [] st = "WaitingForServerChallenge" -> {M("auth", "SCh", "")}
+    [] st = "WaitingForServerChallenge" -> {M("auth", "SCh", ""), M("auth", "SCh", "reflect")}
     [] st = "WaitingForServerChallengeAck" -> {M("auth", "SAck", "good")}
     [] OTHER -> {}
 Note(r, m) == [r EXCEPT !.sawBad = @ \/ (m.c = "auth" /\ r.fsm # "Ok" /\ m \notin Expects(r.fsm))]
 
 \* one inbound frame (or transport fault) on session s
 Quiet(r) == [r EXCEPT !.out = Cat(r.out, <<>>), !.dlv = Cat(r.dlv, <<>>)]
-Recv(s, m) ==
+\* what a relayed digest is worth: right iff some client-side session signed this session's challenge
+Waiting(s) == ss[s].role = "server" /\ ss[s].alive /\ ss[s].fsm = "WaitingOnClientChallengeReply"
+Eff(s, m) == IF m.c = "auth" /\ m.p = "reflected"
+               THEN [m EXCEPT !.p = IF Reflection /\ \E t \in Sessions : s \in ss[t].lent THEN "good" ELSE "bad"]
+               ELSE m
+Lend(s, m, r) == IF m.c = "auth" /\ m.k = "SCh" /\ m.p = "reflect" /\ r.role = "client" /\ r.fsm = "WaitingForServerChallenge"
+                   THEN [r EXCEPT !.lent = {t \in Sessions : Waiting(t)}] ELSE r
+Reflected(s, m) == m.c = "auth" /\ m.p = "reflected" /\ Eff(s, m).p = "good"
+Recv(s, m0) ==
   /\ ss[s].role # "none"
   /\ IF ~ss[s].alive THEN UNCHANGED vars
-     ELSE LET r == Note(ss[s], m) IN
+     ELSE LET m == Eff(s, m0)
+              r == Lend(s, m0, Note(ss[s], m)) IN
           CASE m.c = "x" -> Set(s, Dead([Quiet(r) EXCEPT !.ownFault = TRUE]))
             [] m.c = "auth" -> IF r.fsm = "Ok" THEN Set(s, Quiet(r))
                                ELSE IF r.role = "server" THEN AuthServer(s, m, r) ELSE AuthClient(s, m, r)
@@ -175,7 +190,10 @@ Spec == Init /\ [][Next]_vars
 (* Properties *)
 AuthOk(s) == ss[s].fsm = "Ok"
 \* C17: without the cookie nothing ever takes effect and no session authenticates
-NoCookieNoEffect == ~KnowsCookie => \A s \in Sessions : ss[s].eff = {} /\ ~AuthOk(s) /\ ~ss[s].everOk /\ ~ss[s].listed
+NoCookieNoEffect == (~KnowsCookie /\ ~Reflection) => \A s \in Sessions : ss[s].eff = {} /\ ~AuthOk(s) /\ ~ss[s].everOk /\ ~ss[s].listed
+\* the deviation, stated: with relaying, a peer that never knew the cookie does get in (expected to be
+\* violated in MC_ClusterAuth_reflect.cfg; every other configuration has Reflection = FALSE)
+NoCookieNoAuth == ~KnowsCookie => \A s \in Sessions : ~ss[s].everOk
 \* C17: Close is absorbing: a session that saw a malformed / out-of-order / wrong-digest message
 \* never becomes authenticated (and is gone)
 CloseAbsorbing == \A s \in Sessions : (ss[s].wasClose \/ ss[s].sawBad) => (ss[s].fsm = "Close" /\ ~ss[s].alive)
